@@ -274,6 +274,38 @@ def corpus():
     return cs
 
 
+def grid(ctx, stride, offset):
+    """Every single operation from every small state shape: key absent / present / present after coercion /
+    rejected, with accepting, rejecting and coercing validators on every target (enumerated, not drawn)."""
+    states = [[], [[1, 10]], [[1, 10], [2, 11]], [[2, 11], [1, 10]], [[1, 110]]]
+    keys = [1, 2, 3, 101, 103, 200]
+    vals = [10, 12, 110, 200]
+    ops = []
+    for k in keys:
+        ops += [["DelItem", k], ["Pop", k], ["Pop", k, 12], ["SetDefault1", k]]
+        for v in vals:
+            ops += [["SetItem", k, v], ["SetDefault", k, v]]
+    ops += [["PopItem"], ["Clear"]]
+    pair_lists = [[], [[1, 10]], [[1, 12]], [[3, 12]], [[101, 12]], [[1, 12], [101, 10]], [[3, 10], [103, 12]],
+                  [[3, 10], [3, 12]], [[2, 12], [200, 10]], [[3, 200], [1, 12]], [[1, 10], [2, 11]], [[103, 110], [1, 12], [3, 10]]]
+    for ps in pair_lists:
+        for kind in ("map", "pairs"):
+            ops += [["Update", kind, ps], ["Ior", kind, ps]]
+    cs, i = [], 0
+    for target in ("plain", "obj", "obj_noitems"):
+        for kk in ("VAll", "VInt", "VCInt"):
+            for vk in ("VAll", "VInt", "VCInt"):
+                for init in states:
+                    if target != "plain" and not all(vld(kk, a) == a and vld(vk, b) == b for a, b in init):
+                        continue
+                    for op in ops:
+                        i += 1
+                        if i % stride == offset % stride:
+                            cs.append(dict(kk=kk, vk=vk, target=target, init=init, ops=[op]))
+    ctx.count("grid:single-operation-cases", len(cs))
+    return cs
+
+
 def run(ctx):
     ok, log = ctx.proofs(PROPS)
     ctx.cov["trusted_base"] += [
@@ -289,13 +321,16 @@ def run(ctx):
                        "TraitDictObject of Dict traits (with and without items event), key and value validators "
                        "accept-all / reject / coercing / arbitrary finite table; keys chosen present, absent, "
                        "present-after-coercion, rejected; a case is non-trivial if some step notifies or raises; "
-                       "distinct = distinct (validators, target, initial contents, operation list)")
+                       "distinct = distinct (validators, target, initial contents, operation list); plus the enumerated grid of every "
+                       "single operation (6 key atoms x 4 value atoms, 24 update/|= arguments) from 5 state shapes x 9 validator "
+                       "pairs x 3 targets (thorough: all, quick: every 12th, offset by the seed)")
     rnd = random.Random(ctx.seed)
     n, maxlen = (1500, 10) if ctx.tier == "quick" else (24000, 30)
     if ctx.replay:
         cases = [json.load(open(ctx.replay))["replay"]["case"]]
     else:
         cases = corpus() + [gen_case(rnd, ctx, maxlen) for _ in range(n)]
+        cases += grid(ctx, 1, 0) if ctx.tier == "thorough" else grid(ctx, 12, ctx.seed)
     for c in cases[:2] + cases[-2:]:
         ctx.sample(c)
     hist.run(ctx, "c06_driver.py", cases, to_term, HEADER, CASE_T, key_fn, describe, nontrivial,
